@@ -62,7 +62,7 @@ class C07(fw.Prop):
             "authentication key, wrong title or wrong security-control byte; AARE (plain and ciphered, good and bad) in wrong states and on pre-established "
             "associations; each followed by the genuine continuation.  Every step is compared with the model (outcome class and all observable "
             "attributes); in addition the harness evaluates the property itself on the implementation: attributes before/after the refused input and the "
-            "continuation against a run without it; the refused inputs also followed by a long genuine continuation (release answered without user-information, new association, HLS, GET); forged AAREs claiming titles of 1/7/9 bytes or carrying texts too short for a tag; non-trivial = distinct history")
+            "continuation against a run without it; the refused inputs also followed by a long genuine continuation (release answered without user-information, new association, HLS, GET); forged AAREs claiming titles of 1/7/9 bytes or carrying texts too short for a tag; each refused input also three and five times in a row; genuine APDUs recorded long ago (counters 0, 2, floor/2, floor-2^31..) on a meter that has counted past 2^31; forged AAREs naming no title; non-trivial = distinct history")
     trusted_base = ["the symbolic-cryptography abstraction (ideal AEAD, DESIGN.md §5b): the harness maps real ciphertexts to the terms they were built from",
                     "extract.py (transition table)"]
     assumptions = ["a ciphered APDU carries a service APDU / an initiate response, not an ACSE APDU or another ciphered APDU",
